@@ -1,7 +1,8 @@
 (* C09 — cross-spectral identities and bounds (statements only; on the GENERATED table) *)
 From Coq Require Import ZArith List Bool Reals.
-From SK Require Import Arith Cpx AttrThms.
-From SK.gen Require Import AttrsGen.
+From SK Require Import Arith Cpx AttrThms KernelPrims Kernels GenRef CauchySchwarz KernelCS.
+From SK.gen Require Import AttrsGen KernelsGen.
+Import ListNotations.
 Section C09.
 Variable angle : R * R -> R. Variable unwrap : R -> R.
 Notation F := (FR angle unwrap).
@@ -21,6 +22,39 @@ Theorem C09_residual_formula : forall e : env RA, (0 < e_XX e)%R -> (0 < e_YY e)
 Proof. exact (residual_formula angle unwrap). Qed.
 Theorem C09_auto_in_pair : forall e : env RA, g_Gxx_csd RA F e = g_Gxx_auto RA F e.
 Proof. intros e. reflexivity. Qed.
+(* Cauchy-Schwarz is not an assumption about the data: it holds for the statistics every cross kernel (regenerated from
+   source) returns, for any records, window, frequency, detrend basis and non-empty start vector *)
+Theorem C09_kernel_cauchy_schwarz_win : forall (x1 x2 w : list R) (starts : list Z) L omega, starts <> [] ->
+  let '(MXX, MYY, mur, mui, M2) := gen_stats_win_only_csd RA cos sin x1 x2 starts L w omega in
+  (mur * mur + mui * mui <= MXX * MYY /\ 0 <= MXX /\ 0 <= MYY)%R.
+Proof.
+  intros. rewrite Gen_win_only_csd_ref. pose proof (ref_csd_cauchy_schwarz (cos omega) (sin omega) (samp_win RA x1 w) (samp_win RA x2 w) starts L H) as C.
+  destruct (ref_csd RA _ _ _ _ starts L) as [[[[a b] c] d] e]. tauto.
+Qed.
+Theorem C09_kernel_cauchy_schwarz_detrend0 : forall (x1 x2 w : list R) (starts : list Z) L omega, starts <> [] ->
+  let '(MXX, MYY, mur, mui, M2) := gen_stats_detrend0_csd RA cos sin x1 x2 starts L w omega in
+  (mur * mur + mui * mui <= MXX * MYY /\ 0 <= MXX /\ 0 <= MYY)%R.
+Proof.
+  intros. rewrite Gen_detrend0_csd_ref. pose proof (ref_csd_cauchy_schwarz (cos omega) (sin omega) (samp_mean0 RA x1 w L) (samp_mean0 RA x2 w L) starts L H) as C.
+  destruct (ref_csd RA _ _ _ _ starts L) as [[[[a b] c] d] e]. tauto.
+Qed.
+Theorem C09_kernel_cauchy_schwarz_poly : forall (x1 x2 w : list R) (starts : list Z) L omega Q, starts <> [] ->
+  let '(MXX, MYY, mur, mui, M2) := gen_stats_poly_csd RA cos sin x1 x2 starts L w omega Q in
+  (mur * mur + mui * mui <= MXX * MYY /\ 0 <= MXX /\ 0 <= MYY)%R.
+Proof.
+  intros. rewrite Gen_poly_csd_ref. pose proof (ref_csd_cauchy_schwarz (cos omega) (sin omega) (samp_poly RA x1 w Q L) (samp_poly RA x2 w Q L) starts L H) as C.
+  destruct (ref_csd RA _ _ _ _ starts L) as [[[[a b] c] d] e]. tauto.
+Qed.
+(* hence the coherence computed from kernel output lies in [0,1] *)
+Theorem C09_coherence_of_kernel_output : forall (x1 x2 w : list R) (starts : list Z) L omega S2 S12 navg fs, starts <> [] ->
+  let '(MXX, MYY, mur, mui, M2) := gen_stats_win_only_csd RA cos sin x1 x2 starts L w omega in
+  (0 <= g_coh_csd RA F (mkEnv RA MXX MYY S2 S12 M2 navg fs (mur, mui)) <= 1)%R.
+Proof.
+  intros. pose proof (C09_kernel_cauchy_schwarz_win x1 x2 w starts L omega H) as C.
+  destruct (gen_stats_win_only_csd RA cos sin x1 x2 starts L w omega) as [[[[a b] c] d] e].
+  apply C09_coh_in_unit_interval; cbn [e_XX e_YY e_XY]; unfold cabs2; cbn [fst snd]; tauto.
+Qed.
 End C09.
 Print Assumptions C09_residual_formula.
 Print Assumptions C09_coh_in_unit_interval.
+Print Assumptions C09_coherence_of_kernel_output.
